@@ -42,6 +42,14 @@ def _two(e):
     return e
 
 
+def make_post(tier):
+    def post(work, V, cases, obs):
+        from .. import mechbind
+        info = mechbind.digital_value(work, V, tier)
+        return {'mech_model_checks': info, 'states': sum(m['distinct_states'] for m in info), 'transitions': sum(m['distinct_states'] for m in info)}
+    return post
+
+
 def run(tier):
     return flow.run_standard(
         PROP, tier, gens=[{'module': 'Gen_NumLiteral', 'cfg': 'Gen_NumLiteral_%s.cfg' % tier}],
@@ -50,7 +58,7 @@ def run(tier):
         rule='cases = terminal states of Gen_NumLiteral (%s): boundary digit strings of each length x {plain, grouped} x fraction x sign x {alone, carrier sentence} x {number, percent} '
              'x 10 cultures, at most 15 significant digits, marks per culture written in NumLiteral.tla; replayed into recognize_number / recognize_percentage; the observed value string is '
              'parsed by TLC (incl. E+nn forms) and compared as a number; non-trivial = an entity was returned' % tier,
-        assumptions=common.STD_ASSUMPTIONS, exhaustive=True)
+        assumptions=common.STD_ASSUMPTIONS, exhaustive=True, post=make_post(tier))
 
 
 def replay(path):
